@@ -13,14 +13,14 @@ pub enum HEffect {
     Forward,                                  // bidirectional forwarding started
     Udp,                                      // UDP-over-TCP handler started
 }
-pub struct Session { pub _p: () }
+pub struct Session { pub pv: u8 }
 impl Session {
     #[verifier::external_body]
     pub fn write_control_frame(&self, frame: Frame, fx: &mut Ghost<Seq<HEffect>>) -> (r: Result<()>)
         ensures final(fx)@ == old(fx)@.push(HEffect::Submit { frame: frame.spec() })
     { unimplemented!() }
     #[verifier::external_body]
-    pub fn peer_version(&self) -> (r: u8) { unimplemented!() }
+    pub fn peer_version(&self) -> (r: u8) ensures r == self.pv { unimplemented!() }
 }
 pub struct SocketAddr { pub ip: IpAddr, pub port: u16 }
 impl SocketAddr {
@@ -82,4 +82,23 @@ pub open spec fn resolves(fx: Seq<HEffect>) -> Seq<(Seq<char>, u16)> decreases f
 pub broadcast proof fn lemma_resolves_push(fx: Seq<HEffect>, e: HEffect)
     ensures #[trigger] resolves(fx.push(e)) == (match e { HEffect::Resolve { host, port } => resolves(fx).push((host, port)), _ => resolves(fx) })
 { assert(fx.push(e).drop_last() =~= fx); assert(fx.push(e).last() == e); }
-pub broadcast group group_hfx { lemma_synacks_push, lemma_dials_push, lemma_forward_push, lemma_resolves_push }
+pub broadcast group group_hfx { lemma_synacks_push, lemma_dials_push, lemma_forward_push, lemma_resolves_push, lemma_udp_push }
+
+// ---- handle_stream's dispatch (magic UDP destination vs. TCP proxy) ----
+pub mod udp_dispatch {
+    use super::*;
+    #[verifier::external_body]
+    pub fn handle_udp_over_tcp(stream: Arc<Stream>, fx: &mut Ghost<Seq<HEffect>>) -> (r: Result<()>)
+        ensures final(fx)@ == old(fx)@.push(HEffect::Udp)
+    { unimplemented!() }
+}
+pub mod server { pub mod udp_proxy { pub use super::super::udp_dispatch::handle_udp_over_tcp; } }
+// `destination.addr.contains("udp-over-tcp.arpa")`: substring test on the decoded host name
+pub uninterp spec fn is_udp_magic(host: Seq<char>) -> bool;
+#[verifier::external_body]
+pub fn vx_str_contains_magic(s: &String, pat: &str) -> (r: bool) ensures r == is_udp_magic(s@) { unimplemented!() }
+pub open spec fn n_udp(fx: Seq<HEffect>) -> nat decreases fx.len()
+{ if fx.len() == 0 { 0 } else { n_udp(fx.drop_last()) + (if fx.last() is Udp { 1nat } else { 0nat }) } }
+pub broadcast proof fn lemma_udp_push(fx: Seq<HEffect>, e: HEffect)
+    ensures #[trigger] n_udp(fx.push(e)) == n_udp(fx) + (if e is Udp { 1nat } else { 0nat })
+{ assert(fx.push(e).drop_last() =~= fx); assert(fx.push(e).last() == e); }
